@@ -197,6 +197,9 @@ fn contexts() -> Vec<(Vec<Op>, Vec<Op>)> {
     v.push((vec![Op::PushClipRect(2, 2, 1, 0), Op::PushLayer(1.0, BlendMode::SrcOver)], vec![Op::PopLayer, Op::PopClip]));
     v.push((vec![Op::PushClipRect(-big, -big, big, big), Op::PushLayer(0.5, BlendMode::SrcOver)], vec![Op::PopLayer, Op::PopClip]));
     v.push((vec![Op::PushClip(tri), Op::PushLayer(1.0, BlendMode::SrcOver)], vec![Op::PopLayer, Op::PopClip]));
+    // a clip path that starts above the surface and ends below it (with the degenerate surfaces: a
+    // path straddling rows that do not exist)
+    v.push((vec![Op::PushClip(PathSpec::poly(&[(1., -3.), (6., 4.), (-2., 5.)]))], vec![Op::PopClip]));
     // a pop without a push is harmless for clips
     v.push((vec![Op::PopClip], vec![]));
     v
@@ -228,11 +231,38 @@ fn dashes() -> Vec<Vec<f32>> {
         vec![3e38],
         vec![1e38, 1e38, 1e38],
         vec![1e38, 1e38, 1e38, 1e38],
+        // entries whose sum rounds differently forwards and backwards
+        vec![0.1, 0.2, 4.0, 1.3],
+        vec![0.016, 0.056, 0.142],
+        vec![0.7, 0.1, 0.1, 0.1, 0.1, 0.3],
     ]
 }
 
+/// stands for "minus the float just below the period of the dash array in use" (the period as the
+/// f32 sum, doubled for an odd number of entries)
+const OFFSET_JUST_INSIDE_MINUS_PERIOD: f32 = -77777.25;
+const OFFSET_MINUS_PERIOD: f32 = -77777.5;
+
+fn resolve_offset(off: f32, dash: &[f32]) -> f32 {
+    if off != OFFSET_JUST_INSIDE_MINUS_PERIOD && off != OFFSET_MINUS_PERIOD {
+        return off;
+    }
+    let mut total: f32 = dash.iter().sum();
+    if dash.len() % 2 == 1 {
+        total *= 2.0;
+    }
+    if !(total > 0.0) || !total.is_finite() {
+        return -0.5;
+    }
+    if off == OFFSET_MINUS_PERIOD {
+        -total
+    } else {
+        -f32::from_bits(total.to_bits() - 1)
+    }
+}
+
 fn offsets() -> Vec<f32> {
-    vec![0.0, 0.5, -0.5, 1e9, -1e9, f32::MAX, f32::INFINITY, f32::NEG_INFINITY, f32::NAN]
+    vec![0.0, 0.5, -0.5, 1e9, -1e9, f32::MAX, f32::INFINITY, f32::NEG_INFINITY, f32::NAN, OFFSET_JUST_INSIDE_MINUS_PERIOD, OFFSET_MINUS_PERIOD, -0.0]
 }
 
 fn miters() -> Vec<f32> {
@@ -448,7 +478,8 @@ fn gen_group_into(group: &str, d: usize, out: &mut Sink) {
                 }
                 // the huge miter limit is paired with a small width (outset budget)
                 let width = if c[6] == 3 && c[3] == 0 { 1e-3 } else { ws[c[3]] };
-                let st = StyleSpec { width, cap: c[4] as u8, join: c[5] as u8, miter: ms[c[6]], dash, offset: os[c[8]] };
+                let offset = resolve_offset(os[c[8]], &dash);
+                let st = StyleSpec { width, cap: c[4] as u8, join: c[5] as u8, miter: ms[c[6]], dash, offset };
                 if !stroke_in_domain(&p, &st, &xfs[c[1]]) {
                     continue;
                 }
